@@ -14,7 +14,8 @@
                Database._writeParams offers only flagged definitions (paramDefs.toWriteToDB()).  Process 1 built the
                reactor from its inputs (every group flagged); process 2 is a FRESH process that only loads and saves
                (restart, post-processing): nothing is flagged until Database._readParams assigns the stored values
-               through the parameter properties.
+               through the parameter properties.  Process 2 also registered the plugin flags in another order (other bit positions);
+               flag values are sets of NAMES in every process (FlagSerializer converts the stored bit fields: C05 FlagCodec).
      act       the last action (label for coverage, emission and the step properties)
 
    ACTIONS (one per public call the harness drives; linearization point = return of the call)
@@ -29,7 +30,9 @@
      WriteRefused(s)    the same call when sorted() raises: nothing may be stored
      Load(s, h, p)      Database.load(cycle, node, cs, bp, statePointName) in process p -- or one of its other public realisations:
                         Database.loadReadOnly(cycle, node, statePointName), DatabaseInterface.loadState(cycle, node, timeStepName,
-                        fileName), which must return the state of exactly the slot asked for --   (Layout(h5group), _initComps, _readParams, _compose, sort);
+                        fileName), Database.load with the node counted from the end of its cycle (node < 0, cycles of unequal
+                        length), DatabaseInterface.loadState of a follow-on case whose own database and reload database both
+                        hold the time node (the own one is asked first) -- which must return the state of exactly the slot asked for --   (Layout(h5group), _initComps, _readParams, _compose, sort);
                         every stored parameter is assigned through its property: its definition is flagged in p
      Resave(h, s, p)    Database.writeToDB(loaded[h]) into another file/time node by the process that loaded it: the groups
                         not flagged in p are left out of the file and read back as defaults ("unset")
